@@ -56,6 +56,12 @@ class TroughSuite:
         for k in (2, 3, 4, 8):
             for seq in ([k + 2, 2 * k + 1, 3], [1, k + 1, 4 * k + 3], [0, 3 * k, k], [2 * k - 1, 2 * k + 1]):
                 cases.append({"n": seq[0], "more": seq[1:], "wells": wells_arg(rng, k, rng.choice(["list", "list", "2d_col"]))})
+        # collections that name a well several times, or in no particular order: the i-th result is the (i mod len)-th given
+        for ws in (["A01", "B01", "A01"], ["A01", "A01"], ["C01", "A01", "B01", "A01", "C01"], ["H01", "G01", "F01"], ["B02", "A02", "B02", "A02"],
+                   ["A01", "B01", "C01", "D01", "A01", "B01", "C01", "D01"]):
+            for n in (0, 1, len(ws) - 1, len(ws), len(ws) + 1, 2 * len(ws) + 1, 17):
+                cases.append({"n": n, "wells": {"shape": "list", "v": list(ws)}})
+        cases.append({"n": 5, "wells": {"shape": "2d", "v": [["B01", "A01"], ["A01", "B01"]]}})
         # the caller changes the returned list in place, then asks again (same n, same wells)
         for k in (1, 3, 8):
             for seq in ([k + 2, k + 2, k + 2], [2 * k, 3, 2 * k, 3], [5, 0, 5]):
